@@ -279,9 +279,3 @@ func init() {
 	)
 }
 
-func init() {
-	addMutants(
-		Mutant{"C07", "c07-multi-parent-key-for-any-op", "compiler/optimizer/optimizer.go", "Optimizer.propagateSortKeyOp",
-			"\t\tif _, ok := op.(*dag.Merge); !ok {\n\t\t\t// Only a merge puts the values of several sorted parents in\n\t\t\t// order; anything else receives them interleaved as they arrive.\n\t\t\tparent = nil\n\t\t}\n", "", "C07-M2", "common key of several parents"},
-	)
-}
